@@ -189,3 +189,37 @@ M('c09-forwarded-lowercased-whole', 'C09', 'R7', 'falcon/forwarded.py',
 """)
 M('c09-forwarded-src-lowercased', 'C09', 'R7', 'falcon/forwarded.py',
   "                    parsed_element.src = value\n", "                    parsed_element.src = value.lower()\n")
+
+# ---- wave 4
+M('c09-http-date-reader-astimezone', 'C09', 'R4', 'falcon/util/misc.py',
+  """        return _strptime(http_date, '%a, %d %b %Y %H:%M:%S GMT').replace(
+            tzinfo=_UTC_TIMEZONE
+        )
+""", """        return _strptime(http_date, '%a, %d %b %Y %H:%M:%S GMT').astimezone(
+            _UTC_TIMEZONE
+        )
+""", also=('C15', 'C16'))
+M('c09-dt-to-http-astimezone-unguarded', 'C09', 'R4', 'falcon/util/misc.py',
+  """    return dt.strftime('%a, %d %b %Y %H:%M:%S GMT')
+""", """    return dt.astimezone(_UTC_TIMEZONE).strftime('%a, %d %b %Y %H:%M:%S GMT')
+""", also=('C15', 'C16'))
+M('c09-etag-header-wraps-weak-tags', 'C09', 'R4', 'falcon/response_helpers.py',
+  """    if value[-1] != '"':
+        value = '"' + value + '"'
+""", """    if not (value.startswith('"') and value.endswith('"')):
+        value = '"' + value + '"'
+""")
+M('c09-etag-header-wraps-unless-leading-quote', 'C09', 'R4', 'falcon/response_helpers.py',
+  """    if value[-1] != '"':
+        value = '"' + value + '"'
+""", """    if value[0] != '"':
+        value = '"' + value + '"'
+""")
+M('c09-wsgi-access-route-iterates-optional-forwarded', 'C09', 'R9', 'falcon/request.py',
+  """                for hop in self.forwarded or ():
+""", """                for hop in self.forwarded:
+""", also=('C06',))
+M('c09-asgi-access-route-iterates-optional-forwarded', 'C09', 'R9', 'falcon/asgi/request.py',
+  """                for hop in self.forwarded or ():
+""", """                for hop in self.forwarded:
+""", also=('C06',))
